@@ -7,7 +7,8 @@ claims = json.load(open(os.path.join(V, "props", "claims.json")))
 claims["claimed"] = {}
 for d in sorted(os.listdir(os.path.join(V, "props"))):
     cp = os.path.join(V, "props", d, "claim.json")
-    if os.path.exists(cp):
+    enabled = open(os.path.join(V, "props", "enabled.txt")).read().split()
+    if os.path.exists(cp) and d.upper() in enabled:
         claims["claimed"][d.upper()] = json.load(open(cp))
 props = [json.loads(l) for l in open(os.path.join(V, "properties.jsonl"))]
 ids = [p["id"] for p in props]
